@@ -171,6 +171,26 @@ func (le *LockEngine) opsOfCall(ci *CallInfo, depth int) []LockOp {
 	if op := syncOp(ci); op != nil {
 		return []LockOp{*op}
 	}
+	// once.Do(mu.Unlock): the release of a handle that may be closed twice
+	if ci.Static != nil && qualName(ci.Static) == "sync.(Once).Do" && len(ci.Common.Args) == 2 {
+		if mc, ok := resolve(ci.Common.Args[1]).(*ssa.MakeClosure); ok && len(mc.Bindings) == 1 {
+			if g, ok := mc.Fn.(*ssa.Function); ok && strings.HasSuffix(g.Name(), "$bound") {
+				if m, ok := g.Object().(*types.Func); ok {
+					var mode byte
+					switch m.FullName() {
+					case "(*sync.Mutex).Unlock", "(*sync.RWMutex).Unlock":
+						mode = 'W'
+					case "(*sync.RWMutex).RUnlock":
+						mode = 'R'
+					}
+					if mode != 0 {
+						r := mc.Bindings[0]
+						return []LockOp{{Key: keyP(r), Mode: mode, Acquire: false, At: ci.Instr, Class: lockClass(r), Direct: true}}
+					}
+				}
+			}
+		}
+	}
 	if ci.Static == nil || !inModule(ci.Static) || ci.Static.Blocks == nil || depth >= le.MaxDepth {
 		return nil
 	}
